@@ -43,11 +43,29 @@ CLAIMS = {
          "iterator representation invariants assumed by the inductive steps (a broken INV: assertion is reported as inconclusive); RemovedAxis::into_shape model in sum harnesses.",
          K + "; inductive step over iterator state; symbolic-shape lemmas"),
 }
+CLAIMS.update({
+ "C06": ("Published estimators: the expression trees of the Fu-Li and Tajima D denominators and of the theta weights, extracted from the MIR, equal the published formulas for every n >= 3 over the reals (z3), with their integer overflow conditions discharged; Statistic::calculate calls the method each name says (normalised for f2/f3/f4/fst). Definitions: S, pi, theta_W, pi_xy, f2, f3, f4, Hudson Fst, KING/R0/R1 against the statement's site-average definitions on small shapes with symbolic cells (Kani).",
+         "real arithmetic for the all-n identities (rounding/inf/NaN outside); binomial(n,2) by contract; the genotype-level reading is the composition with C01 (argued); which theta estimators the two D statistics combine is fixed at type level and only checked through the monomorphic-entry / definition harnesses.",
+         "mir2smt (nightly MIR -> SMT-LIB, z3) for formulas; " + K + " for definitions"),
+ "C10": ("One loop iteration of Runner::run from an arbitrary state, on the MIR with calls uninterpreted: Standard => scs[counts] += 1.0 and sites+1; Projected => add_unchecked and sites+1; InsufficientData => spectrum unchanged, skipped+1 (non-strict) or an immediate Err naming contig/position with counters untouched (strict); Error => immediate Err; Done => Ok(accumulated spectrum). Create::run writes only after Runner::run returned Ok; main turns every Err into stderr + exit 1. Induction over records gives the counting claim.",
+         "a Projected contribution has total weight one only if the pmf sums to one (numerics, not decided); stdout byte identity between strict/non-strict and stderr wording not decided; what read_site returns is decided by the C01/C02 kernels.",
+         "mir2smt glue mode: path enumeration of the MIR with uninterpreted calls; inductive step over loop iterations"),
+ "C13": ("Every acyclic MIR path of View::run (all 16 option subsets x keep/remove x individuals/shape x error exits): the spectrum term that reaches the writer is normalize?(mask?(project?(marginalize?(read)))) with each stage present iff its option is set, mask = 0.0 stored at the first and last cell only, precision/format/path passed through; the keep filter is !keep.contains(i) over 0..dimensions and -p i means 2i+1. normalize divides so that ratios are preserved and the sum is one (Kani, exact for power-of-two sums).",
+         "equality with chained single-option invocations is by congruence of the uninterpreted stage functions plus lossless piping (npy, C07); 'reproduces its input to the printed precision' is text I/O (not decided).",
+         "mir2smt glue mode; " + K + " for normalize"),
+ "C14": ("Invariances on small shapes with symbolic cells: fold(fill 0) leaves pi, theta_W, S, pi_xy, f2 (Fst, KING/R0/R1 thorough) unchanged; the two monomorphic entries do not influence pi, theta_W, S (D statistics, pi_xy, Fst, kinship thorough); swapping populations leaves pi_xy, f2 (Fst thorough), KING/R0/R1 unchanged; scaling by 2, 4, 1/2; f3 from marginal f2 (thorough, exact); f2/f3/f4/fst are computed on the normalised spectrum (glue).",
+         "cells 0..3, listed shapes only; general positive scale factors outside; tolerance 1e-9 where a sum is re-associated.",
+         K + "; mir2smt glue for normalisation before f-statistics"),
+ "C17": ("Panic-freedom of the library/glue kernels: all 14 statistics on a grid of small and degenerate shapes (Kani, Rust overflow/index/unwrap checks on); get/get_axis/flat_index over the full usize range; genotype conversion for any allele index; format detection on short input; Header::write for every dict length and View::run's index arithmetic for every slice length (mir2smt VCs); main maps Err to exit 1. Six degenerate-shape overflows are recorded known findings.",
+         "NOT 'any input bytes': arbitrary/mutated VCF/BCF bytes (noodles), clap parsing and text tokenisation are whole-program parsing outside the engines; debug-profile overflow checks (release wraps).",
+         K + "; mir2smt overflow/index verification conditions"),
+})
+
 NA = {
  "C09": "population/sample maps are IndexMap/IndexSet/HashMap code: CBMC did not finish a two-entry map in 1800 s (SipHash + hashbrown group probing); modelling the containers away leaves nothing of the mechanism to check",
  "C12": "depends on noodles' multi-threaded BGZF reader, flate2, file-vs-stdin and process-level determinism: concurrency and OS I/O are outside what Kani/CBMC or an SMT encoding of the MIR can hold",
 }
-PENDING = {p: "check under construction in this session (see DESIGN.md section 4); will be claimed once its harnesses / mir2smt tasks are committed" for p in ["C06","C10","C13","C14","C17"]}
+PENDING = {}
 
 def main():
     m = {
@@ -62,7 +80,7 @@ def main():
      },
      "engines": [
        {"name": "K", "path": "lib/kv.py", "serves_properties": sorted(CLAIMS), "kind_free_text": "Kani 0.68 / CBMC 6.11 / CaDiCaL bounded model checking of the compiled crates; harnesses in harness/, injected into a scratch copy"},
-       {"name": "M", "path": "lib/mtasks.py", "serves_properties": [], "kind_free_text": "mir2smt: nightly MIR dump -> SMT-LIB (z3, cvc5 cross-check): numeric identities / overflow VCs and glue path terms"},
+       {"name": "M", "path": "lib/mtasks.py", "serves_properties": ["C01", "C02", "C05", "C06", "C10", "C11", "C13", "C14", "C15", "C16", "C17"], "kind_free_text": "mir2smt: nightly MIR dump -> SMT-LIB (z3, cvc5 cross-check): numeric identities / overflow VCs and glue path terms"},
      ],
      "checks": [],
      "not_applicable": [],
